@@ -11,10 +11,12 @@ use crate::expression::{
 
 /// Simplify an [`Expression`].
 pub fn run(expression: &Expression) -> Expression {
-    Simplifier::new()
-        .simplify(ArcIntern::new(expression.clone()), LIMIT)
-        .as_ref()
-        .clone()
+    let simplified = Simplifier::new().simplify(ArcIntern::new(expression.clone()), LIMIT);
+    match simplified.as_ref() {
+        // Once the limit is exhausted, a rewrite can hand back an unsimplified child as is.
+        Expression::PiConstant() => Expression::Number(PI),
+        simplified => simplified.clone(),
+    }
 }
 
 /// Keep stack sizes under control
